@@ -61,6 +61,10 @@ class RealPrims(object):
         m = importlib.import_module("Crypto.Hash." + name)
         return m.new(msg).digest()[:outlen]
 
+    def shake(self, bits, msg, outlen):
+        import importlib
+        return importlib.import_module("Crypto.Hash.SHAKE%d" % bits).new(bytes(msg)).read(outlen)
+
     def uf(self, name, ins, outlen):
         import importlib
         ins = [bytes(i) for i in ins]
@@ -164,6 +168,10 @@ class SymPrims(object):
 
     def hash(self, name, msg, outlen, *params):
         return self.c.SymBytes(self.n.HASH(name, self._e(msg), outlen, *params))
+
+    def shake(self, bits, msg, outlen):
+        """SHAKE128/256 output as the (chunked, prefix-consistent) uninterpreted sponge of vlib/pysym/natives.py"""
+        return self.c.SymBytes(self.n.keccak_stream(2 * bits // 8, 24, 0x1F, self._e(msg), 0, outlen))
 
     def uf(self, name, ins, outlen):
         return self.c.SymBytes(self.n.UF(name, [self._e(i) for i in ins], outlen))
